@@ -68,6 +68,7 @@ type c19Case struct {
 	Topics     int    `json:"topics,omitempty"`
 	Publishers int    `json:"publishers,omitempty"`
 	PerPub     int    `json:"per_pub,omitempty"`
+	PaceUs     int    `json:"pace_us,omitempty"` // > 0: every publisher sleeps that long between publishes
 	Mode       string `json:"mode,omitempty"` // traffic | timeouts
 	Churn      bool   `json:"churn,omitempty"`
 	Seed       int64  `json:"seed,omitempty"`
@@ -704,7 +705,9 @@ func runStress(c *c19Case, obs *c19Obs) {
 				mu.Lock()
 				obs.Pubs = append(obs.Pubs, rec)
 				mu.Unlock()
-				if c.Mode == "timeouts" {
+				if c.PaceUs > 0 {
+					time.Sleep(time.Duration(c.PaceUs) * time.Microsecond)
+				} else if c.Mode == "timeouts" {
 					time.Sleep(time.Duration(r.Intn(2*c.TimeoutMs+1)) * time.Millisecond / 2)
 				} else if r.Intn(8) == 0 {
 					time.Sleep(time.Duration(r.Intn(300)) * time.Microsecond)
